@@ -167,7 +167,7 @@ theorem leftChildOf_getLast_eq_rightChildOf_head (pts : List (Pos S)) :
 
 /-! ## the checked container operations -/
 
-theorem getC_ok {α : Type} {a : Array α} {i : Nat} {v : α} (h : a[i]? = some v) :
+theorem getC_ok_some {α : Type} {a : Array α} {i : Nat} {v : α} (h : a[i]? = some v) :
     getC a i = .ok v := by
   simp [getC, h]
 
@@ -196,7 +196,7 @@ theorem midLoop_spec (n j : Nat) (mid : Array (Pos S)) (h : j + n < mid.size) :
     obtain ⟨mid', h1, h2, h3⟩ := ih (j + 1) (mid.setIfInBounds j (pdiv A (padd A a b) (two A)))
       (by simp; omega)
     refine ⟨mid', ?_, by simpa using h2, fun k => ?_⟩
-    · simp only [midLoop, getC_ok ha, getC_ok hb, hset, bind, Except.bind]
+    · simp only [midLoop, getC_ok_some ha, getC_ok_some hb, hset, bind, Except.bind]
       exact h1
     · rw [h3 k]
       have hj : j < mid.size := by omega
@@ -268,7 +268,7 @@ theorem subLoop_spec (P : List (Pos S)) (i d : Nat) (hid : i + d + 1 = P.length)
             rw [this]; exact hmid (i + 1) (Nat.le_refl _)
           · simp only [hki, if_false]; exact hr k (by omega) hk')
     refine ⟨l', r', mid', ?_, by simpa using h2, by simpa using h3, by omega, h5, h6, h7⟩
-    simp only [subLoop, getC_ok hm0, getC_ok hmi, hs1, hs2, hsl, hsr, hm1, bind, Except.bind]
+    simp only [subLoop, getC_ok_some hm0, getC_ok_some hmi, hs1, hs2, hsl, hsr, hm1, bind, Except.bind]
     exact h1
 
 /-! ## `subdivide` -/
@@ -305,7 +305,7 @@ theorem subdivide_spec (pts l r mid : Array (Pos S)) (h1 : 1 ≤ pts.size)
   have hsr := setC_ok (a := r1) (i := 0) v (by omega)
   refine ⟨l1.setIfInBounds (pts.size - 1) v, r1.setIfInBounds 0 v, mid1, ?_, by simpa using e2,
     by simpa using e3, by omega, ?_, ?_⟩
-  · simp only [subdivide, hc1, e1, getC_ok hv, hs, hsl, hsr, bind, Except.bind]
+  · simp only [subdivide, hc1, e1, getC_ok_some hv, hs, hsl, hsr, bind, Except.bind]
   · apply List.ext_getElem?
     intro k
     unfold leftChildOf
